@@ -43,7 +43,11 @@ m = {
               "source_commits": [], "add_only": True},
     "engines": [{"name": "dsim", "path": "/verif/dsim", "serves_properties": [c["property_id"] for c in checks],
                  "kind_free_text": "deterministic simulation with fault injection: seeded world generator, scheduler party with fault plan, "
-                                   "noise/choice/HTTP/TZ seams, end-of-period tap, reference models, structural shrinker, replay files"}],
+                                   "noise/choice/HTTP/TZ seams, end-of-period tap, reference models, structural shrinker, replay files; faults: scheduler crash + "
+                                   "resume (memory / JSON string, buffer, file, open handle, disk full during the save, old checkpoint layout), scribbling / "
+                                   "malformed / invalid schedules, operator interventions between and inside periods (limits changed, withdrawn, re-wired, "
+                                   "cable pulled, monitoring script editing what it was handed), HTTP page faults, host time zone, hash seed, python -O, "
+                                   "object re-use, deep copies, caller threads under a seeded interleaver"}],
     "checks": checks,
     "not_applicable": na,
     "notes": "All checks: ./check <ID> --tier quick|thorough; exit 0 held / 1 VIOLATION / 2 harness error (never 0 on timeout). "
